@@ -16,6 +16,7 @@ BURST_COLS = {'cycles': record.FEAT4, 'amp': ['burst_fraction']}
 def _rec(case, opts_obj=None):
     rec, df = record.record_compute_features(pipeline.as_recorded_dtype(case), opts_obj=opts_obj)          # integer-typed recordings where the values allow
     side = {'raised': rec['raised'], 'pos': rec['filt']['pos'], 'mask': rec['dt']['mask'], 'L': rec['flen']['L'], 'rows': [],
+            'filt_input': rec['filt'].get('input', []), 'dt_input': rec['dt'].get('input', []), 'amp_input': rec['amp'].get('input', []),
             'flen': {k: rec['flen'][k] for k in ('seen', 'fs', 'flo', 'fhi', 'ncyc', 'nsec')}, 'filt': {k: rec['filt'][k] for k in ('seen', 'fs', 'flo', 'fhi', 'ncyc', 'nsec')}}
     if df is not None:
         method = case['opts']['burst_method']
@@ -79,7 +80,7 @@ def run(ctx, rel, n_cases, prefixes, seed_offset, max_len=900, kinds=None):
     v2 = tv.validate(ctx, 'Trace_Relations', pairs, label='Trace_Relations.' + rel)
     env_failed = nontriv = single_fail = 0
     for i, (c, fails) in enumerate(zip(cases, v2)):
-        if any('.env.' in f for f in fails) and not any(f.endswith('filter_arguments_not_in_the_same_units') for f in fails):
+        if any('.env.' in f for f in fails) and not any(f.endswith('filter_arguments_not_in_the_same_units') or '.inputs_to_' in f for f in fails):
             env_failed += 1          # an environment assumption (neurodsp covariance) failed: the pair proves nothing either way
             continue
         if len(pairs[i]['A']['rows']) >= 3:
